@@ -20,9 +20,13 @@ Pairs(l0) == [i \in DOMAIN l0 |-> [id |-> l0[i][1], p |-> l0[i][2]]]
 MapOf(e) == [k \in Kinds |-> [g \in GatesOf(e) |-> IF e.map[k][g].has THEN Entry(Pairs(e.map[k][g].l)) ELSE Absent]]
 Slots(o) == IF o.kind = "OneQubitGateWrapper" THEN Len(o.w) ELSE IF Len(o.rk) = 2 THEN 2 ELSE 1
 GateAt(o, j) == IF o.kind = "OneQubitGateWrapper" THEN o.w[j] ELSE o.kind
+\* many draws for controlled pairs whose map lists ONE noise with probability 1/2: the control's and the target's noise
+\* are drawn separately, so among total >= 64 pairs some must differ and some must agree (each has probability 1/2)
+PairsVerdict(e) == IF e.total >= 64 /\ (e.differ = 0 \/ e.differ = e.total) THEN "PairsIndependent" ELSE "ok"
 Verdict(e) ==
   LET m == MapOf(e) IN
-  IF e.err # "" THEN "Raised"
+  IF e.fn = "pairs" THEN PairsVerdict(e)
+  ELSE IF e.err # "" THEN "Raised"
   ELSE IF Len(e.out) # Len(e.ops) \/ \E i \in DOMAIN e.ops : Len(e.out[i]) # Slots(e.ops[i]) THEN "ShapeOK"
   ELSE IF \E i \in DOMAIN e.ops : \E j \in DOMAIN e.out[i] :
             e.out[i][j] \notin (IF GateAt(e.ops[i], j) \in GatesOf(e) THEN Allowed(m, e.ops[i].rk, GateAt(e.ops[i], j)) ELSE {"NoNoise"})
